@@ -131,6 +131,16 @@ claim("C10",
       "for them does not compile (recorded in evidence as a C01-class finding).",
       "TLC exhaustive model checking + generated code executed in process + TLC trace validation", "DESIGN.md 6 (C10)")
 
+claim("C13",
+      "TypeGraph.tla (heap of type nodes with Go-slice-like meta buffers; Build, DoHash with the threaded object memo, DoDup with the user-type memo, 11 mutation "
+      "operations; equality specified by construction through transformations copy/perm/rev/deco/uname/tag vs ren/add/del/prim/flip and the documented rule "
+      "table over the 8 flag combinations) is model-checked exhaustively for graphs with <=3 (quick) / <=4 (thorough) non-primitive nodes with three deviation "
+      "guards; every emitted case is built with the public expr constructors and judged on the real expr.Dup/DupAtt/Hash/Equal (20 repetitions, plus a fresh "
+      "process digest comparison), the original is snapshotted before and after mutating the copy; random graphs are validated by TLC as traces.",
+      "Trusted: the structural walker that projects real expr graphs onto the model heap (harness/drivers/expr). Out of the model: views, bases, references, "
+      "defaults, examples; unrolled vs folded recursive types are never compared.",
+      "TLC exhaustive model checking + vectors replayed on real code + TLC trace validation", "DESIGN.md 6 (C13)")
+
 for p in ALL:
     if p not in CLAIMED:
         NOT_APPLICABLE[p] = "check not built yet in this revision (planned with the same technique, see DESIGN.md section 6)"
